@@ -135,7 +135,7 @@ pub fn event_banks(e: &EvSpec, run: u32, trg_ts: u32) -> (u16, BankList) {
                 }
                 "unknown_bank" => {
                     let at = r.usize(0, banks.len());
-                    banks.insert(at, (r.pick(&["XXXX", "C99A", "PC98", "QQQQ"]).to_string(), r.bytes(12)));
+                    banks.insert(at, (r.pick(&["XXXX", "C99A", "PC98", "QQQQ", "B15F", "B09Z", "B09f", "C09W", "PC9A", "ATAX", "TRBB", "MCVY", "CBF1", "SEQ2"]).to_string(), r.bytes(12)));
                 }
                 "bad_adc" => {
                     let at = r.usize(0, banks.len());
